@@ -31,6 +31,313 @@ func init() {
 		Floor: map[string]int{"v2": 1, "root": 1},
 		Run:   runR026,
 	})
+	core.Register(&core.Rule{
+		ID:    "R04.8",
+		Title: "a decoded object is handed back together with its error",
+		Text: "In the generic UnmarshalRestLi[T], once an instance has been created (NewInstance()) every later return yields that instance as its value, whatever the error: " +
+			"a lenient client drops a MissingRequiredFieldsError and uses the value, so a zero value returned with the error is dereferenced by the batch helpers (a panic in the caller's goroutine instead of an error).",
+		Props:   []string{"C04", "C06"},
+		Modules: []string{"v2"},
+		Floor:   map[string]int{"v2": 1},
+		Run:     runR048,
+	})
+	core.Register(&core.Rule{
+		ID:    "R04.9",
+		Title: "where a caller discards an error, the callee never pairs an error with a nil value",
+		Text: "Inventory of assignments `v, _ := f(…)` / `v, _ = f(…)` in the runtime packages where f is a function of the module returning (T, error) with T a pointer, interface, map, slice or func: " +
+			"every return of f (followed through `return g(…)` one level) whose error may be non-nil yields a non-nil value.  The caller's belief that the error can be ignored (because the input was validated earlier) " +
+			"is only safe if the value is usable in every case; a constructor that starts answering (nil, err) turns that belief into a nil dereference — a recovered panic and a 500 with a stack trace for a malformed request.",
+		Props: []string{"C04"},
+		Floor: map[string]int{"v2": 1, "root": 1},
+		Run:   runR049,
+	})
+}
+
+func runR048(c *core.Ctx) {
+	const rel = "restlicodec"
+	inf := info(c, rel)
+	_, fd := mustDecl(c, rel, "UnmarshalRestLi")
+	// the instance variables
+	inst := map[types.Object]bool{}
+	ast.Inspect(fd.Body, func(n ast.Node) bool {
+		as, ok := n.(*ast.AssignStmt)
+		if !ok || len(as.Lhs) != len(as.Rhs) {
+			return true
+		}
+		for i, r := range as.Rhs {
+			if call, ok := core.Unparen(r).(*ast.CallExpr); ok {
+				if f := core.Callee(inf, call); f != nil && core.NameOf(f) == "NewInstance" {
+					if o := core.ObjOf(inf, as.Lhs[i]); o != nil {
+						inst[o] = true
+					}
+				}
+			}
+		}
+		return true
+	})
+	if len(inst) == 0 {
+		c.Unknown(rel, "UnmarshalRestLi", "instance creation", fd.Pos(), "no NewInstance() call: how are pointer unmarshalers instantiated?")
+		return
+	}
+	bad := token.NoPos
+	core.NewFlow(c.M, inf, fd.Body).Run(&core.Automaton{
+		AtEnd: true,
+		Node: func(st int, n ast.Node) int {
+			if as, ok := n.(*ast.AssignStmt); ok {
+				for i, l := range as.Lhs {
+					if o := core.ObjOf(inf, l); o != nil && inst[o] && i < len(as.Rhs) {
+						if call, ok := core.Unparen(as.Rhs[i]).(*ast.CallExpr); ok {
+							if f := core.Callee(inf, call); f != nil && core.NameOf(f) == "NewInstance" {
+								st = 1
+							}
+						}
+					}
+				}
+			}
+			if r, ok := n.(*ast.ReturnStmt); ok && st == 1 {
+				if len(r.Results) == 0 || !inst[core.ObjOf(inf, r.Results[0])] {
+					if bad == token.NoPos {
+						bad = r.Pos()
+					}
+				}
+			}
+			return st
+		},
+	})
+	c.Check(bad == token.NoPos, rel, "UnmarshalRestLi", "the instance is returned on every path after it was created", fd.Pos(), "",
+		"the return at "+c.M.Position(bad)+" yields something other than the instance that was unmarshalled into: with an error that a lenient client drops, the caller dereferences a zero value")
+}
+
+func runR049(c *core.Ctx) {
+	type site struct {
+		rel string
+		fd  *ast.FuncDecl
+		as  *ast.AssignStmt
+		f   *types.Func
+	}
+	var sites []site
+	for _, rel := range []string{"restli", "restlicodec", "restli/batchkeyset", "d2"} {
+		p := c.M.Pkg(rel)
+		if p == nil {
+			continue
+		}
+		inf := p.TypesInfo
+		for _, fd := range c.M.FuncDecls(rel) {
+			if fd.Body == nil || strings.HasSuffix(c.M.Fset.File(fd.Pos()).Name(), "_test.go") {
+				continue
+			}
+			ast.Inspect(fd.Body, func(n ast.Node) bool {
+				as, ok := n.(*ast.AssignStmt)
+				if !ok || len(as.Rhs) != 1 || len(as.Lhs) != 2 {
+					return true
+				}
+				call, ok := core.Unparen(as.Rhs[0]).(*ast.CallExpr)
+				if !ok {
+					return true
+				}
+				f := core.Callee(inf, call)
+				if f == nil || c.M.Decl(f.Origin()) == nil {
+					return true
+				}
+				sig := f.Type().(*types.Signature)
+				if sig.Results().Len() != 2 || !core.IsErrorType(sig.Results().At(1).Type()) {
+					return true
+				}
+				if id, ok := as.Lhs[1].(*ast.Ident); !ok || id.Name != "_" {
+					return true
+				}
+				if id, ok := as.Lhs[0].(*ast.Ident); ok && id.Name == "_" {
+					return true
+				}
+				switch sig.Results().At(0).Type().Underlying().(type) {
+				case *types.Pointer, *types.Interface, *types.Map, *types.Slice, *types.Signature:
+					sites = append(sites, site{rel, fd, as, f.Origin()})
+				}
+				return true
+			})
+		}
+	}
+	if len(sites) == 0 {
+		c.OK("restli", "-", "no call site discards the error of a module function while keeping its value", token.NoPos, "")
+		return
+	}
+	// nilWithErr: a return of f that can pair a nil value with a non-nil error.  An error that is the verdict of a
+	// validator applied to a parameter (`err := V(p); if err != nil { return nil, err }`) is recorded instead as a demand on
+	// the caller: parameter p must have been validated by V.
+	type demand struct {
+		v     *types.Func
+		param int
+	}
+	var nilWithErr func(f *types.Func, depth int) (string, []demand)
+	nilWithErr = func(f *types.Func, depth int) (string, []demand) {
+		fd := c.M.Decl(f)
+		p := c.M.PkgOf(f)
+		if fd == nil || fd.Body == nil || p == nil || depth > 2 {
+			return "", nil
+		}
+		inf := p.TypesInfo
+		why := ""
+		var demands []demand
+		for _, r := range core.ReturnsIn(fd.Body) {
+			if why != "" {
+				break
+			}
+			switch len(r.Results) {
+			case 1:
+				if call, ok := core.Unparen(r.Results[0]).(*ast.CallExpr); ok {
+					if g := core.Callee(inf, call); g != nil && c.M.Decl(g.Origin()) != nil {
+						w, ds := nilWithErr(g.Origin(), depth+1)
+						why = w
+						// g's demands on its parameters become demands on ours where the argument is our parameter
+						for _, d := range ds {
+							if d.param < len(call.Args) {
+								if v, ok := core.ObjOf(inf, call.Args[d.param]).(*types.Var); ok && isParamOf(inf, fd, v) {
+									demands = append(demands, demand{d.v, paramIndex(inf, fd, v)})
+									continue
+								}
+							}
+							why = fmt.Sprintf("%s passes something other than its own parameter to %s, which validates it", core.NameOf(f), core.NameOf(g))
+						}
+					}
+				}
+			case 2:
+				if core.IsNil(inf, r.Results[1]) || !core.IsNil(inf, r.Results[0]) {
+					continue
+				}
+				// (nil, err): err := V(param) ?
+				okSrc := false
+				if eo := core.ObjOf(inf, r.Results[1]); eo != nil {
+					nDefs := 0
+					ast.Inspect(fd.Body, func(n ast.Node) bool {
+						as, ok := n.(*ast.AssignStmt)
+						if !ok {
+							return true
+						}
+						for i, l := range as.Lhs {
+							if core.ObjOf(inf, l) != eo {
+								continue
+							}
+							nDefs++
+							if len(as.Lhs) == len(as.Rhs) {
+								if call, ok := core.Unparen(as.Rhs[i]).(*ast.CallExpr); ok && len(call.Args) == 1 {
+									if vf := core.Callee(inf, call); vf != nil && c.M.Decl(vf.Origin()) != nil {
+										if pv, ok := core.ObjOf(inf, call.Args[0]).(*types.Var); ok && isParamOf(inf, fd, pv) {
+											demands = append(demands, demand{vf.Origin(), paramIndex(inf, fd, pv)})
+											okSrc = true
+										}
+									}
+								}
+							}
+						}
+						return true
+					})
+					if nDefs != 1 {
+						okSrc = false
+					}
+				}
+				if !okSrc {
+					why = fmt.Sprintf("%s returns (nil, %s) at %s", core.NameOf(f), core.ExprString(r.Results[1]), c.M.Position(r.Pos()))
+				}
+			}
+		}
+		return why, demands
+	}
+	// validatedBy: e (an argument at the discarding call site) is known to have passed validator v: after stripping
+	// conversions it has a named type of the module every conversion to which is guarded by v(<the converted expression>)
+	// having returned nil.
+	validatedBy := func(inf *types.Info, e ast.Expr, v *types.Func) (bool, string) {
+		for {
+			call, ok := core.Unparen(e).(*ast.CallExpr)
+			if !ok || len(call.Args) != 1 {
+				break
+			}
+			if tv, isConv := inf.Types[call.Fun]; !isConv || !tv.IsType() {
+				break
+			}
+			e = call.Args[0]
+		}
+		nn := namedOf(inf.Types[e].Type)
+		if nn == nil || nn.Obj().Pkg() == nil || c.M.PkgOf(nn.Obj()) == nil {
+			return false, core.ExprString(e) + " has no type that records a validation"
+		}
+		convs, okAll := 0, true
+		for _, p := range c.M.Roots {
+			pinf := p.TypesInfo
+			for _, file := range p.Syntax {
+				var par map[ast.Node]ast.Node
+				ast.Inspect(file, func(n ast.Node) bool {
+					conv, ok := n.(*ast.CallExpr)
+					if !ok || len(conv.Args) != 1 {
+						return true
+					}
+					tv, isConv := pinf.Types[conv.Fun]
+					if !isConv || !tv.IsType() || namedOf(tv.Type) == nil || namedOf(tv.Type).Obj() != nn.Obj() {
+						return true
+					}
+					if at := namedOf(pinf.Types[conv.Args[0]].Type); at != nil && at.Obj() == nn.Obj() {
+						return true // identity conversion
+					}
+					convs++
+					if par == nil {
+						par = core.Parents(file)
+					}
+					stmt := core.EnclosingStmt(par, conv)
+					// an error variable assigned from v(<same expression>) and known nil here
+					guarded := core.GuardedByFact(pinf, par, stmt, func(f core.Fact) bool {
+						x, nonNil, ok := core.NilTest(pinf, f)
+						if !ok || nonNil {
+							return false
+						}
+						eo := core.ObjOf(pinf, x)
+						found := false
+						ast.Inspect(file, func(m ast.Node) bool {
+							as, ok := m.(*ast.AssignStmt)
+							if !ok || as.End() > stmt.Pos() || len(as.Lhs) != len(as.Rhs) {
+								return true
+							}
+							for i, l := range as.Lhs {
+								if core.ObjOf(pinf, l) == eo && eo != nil {
+									if vc, ok := core.Unparen(as.Rhs[i]).(*ast.CallExpr); ok && len(vc.Args) == 1 {
+										if vf := core.Callee(pinf, vc); vf != nil && vf.Origin() == v && core.SameExpr(pinf, vc.Args[0], conv.Args[0]) {
+											found = true
+										}
+									}
+								}
+							}
+							return true
+						})
+						return found
+					}, nil)
+					if !guarded {
+						okAll = false
+					}
+					return true
+				})
+			}
+		}
+		if convs == 0 || !okAll {
+			return false, fmt.Sprintf("not every conversion to %s follows a successful %s of the converted value", nn.Obj().Name(), core.NameOf(v))
+		}
+		return true, ""
+	}
+	for i, s := range sites {
+		why, demands := nilWithErr(s.f, 0)
+		if why == "" {
+			call := core.Unparen(s.as.Rhs[0]).(*ast.CallExpr)
+			sinf := c.M.Pkg(s.rel).TypesInfo
+			for _, d := range demands {
+				if d.param >= len(call.Args) {
+					why = "validated parameter not passed"
+					continue
+				}
+				if ok, w := validatedBy(sinf, call.Args[d.param], d.v); !ok {
+					why = fmt.Sprintf("%s answers (nil, error) when %s rejects its argument, and %s", core.NameOf(s.f), core.NameOf(d.v), w)
+				}
+			}
+		}
+		c.Check(why == "", s.rel, core.DeclName(s.fd), fmt.Sprintf("discarded error #%d of %s leaves a usable value", i+1, core.NameOf(s.f)), s.as.Pos(), "",
+			why+": this caller ignores the error and uses the value")
+	}
 }
 
 func runR026(c *core.Ctx) {
